@@ -91,6 +91,15 @@ CHECKS = {
              'start with a resourceVersion test and touch only transformation targets; no request after a 404; 404 is silent), and '
              'no write on another uid than the handled one. One listed known finding (merge-patches land on a same-named successor).',
         design_ref='5/C08'),
+    'C11': dict(
+        technique='property-based testing: Hypothesis-generated handler declarations (errors mode x retries x timeout x backoff) and outcome '
+                  'scripts for change handlers, sub-handlers, daemons, timers and startup activities, run in the closed loop (with graceful '
+                  'restarts); oracle = the observed attempt sequence replayed against an executable reading of docs/errors.rst',
+        text='Per attempt sequence: retry numbers 0,1,2,..., next start >= previous end + requested delay/backoff, nothing after a final '
+             'outcome (permanent error, arbitrary error in permanent/ignored mode, limits), at most retries=N invocations, no start at or '
+             'after first start + timeout, a due retry does happen within the bound, a persisted record that reached the limit says '
+             'failure; a failed startup aborts the operator with no API use. Bounded exploration.',
+        design_ref='5/C11'),
     'C15': dict(
         technique='bounded-exhaustive enumeration (itertools.product over a criteria alphabet, sampled in quick, complete in thorough) '
                   'of handler declarations x object states x causes through the public decorators, differential against an executable '
